@@ -55,6 +55,15 @@ func realOrder(ks []keySpec) search.SortOrder {
 	return so
 }
 
+// mkReq builds a top-N request; def: leave the request's sort order alone (the default: score, descending)
+func mkReq(n int, q bluge.Query, ks []keySpec, def bool) *bluge.TopNSearch {
+	r := bluge.NewTopNSearch(n, q)
+	if !def {
+		r.SortByCustom(realOrder(ks))
+	}
+	return r
+}
+
 type match struct {
 	id    int
 	score float64
@@ -205,12 +214,18 @@ func main() {
 				}
 				return 0
 			}
-			for oi := 0; oi < nord && (!big || oi < 2); oi++ {
+			for oi := 0; oi <= nord && (!big || oi < 2); oi++ {
 				var ks []keySpec
 				fields := []string{"n1", "k1", "t1", "_score"}
 				r.Shuffle(len(fields), func(i, j int) { fields[i], fields[j] = fields[j], fields[i] })
 				for _, f := range fields[:1+r.Intn(3)] {
 					ks = append(ks, keySpec{Field: f, Desc: r.Intn(2) == 0, MFirst: r.Intn(2) == 0})
+				}
+				// the last round leaves the sort order to the engine: requests that never call SortBy (score, descending),
+				// including their after / before pages
+				def := oi == nord
+				if def {
+					ks = []keySpec{{Field: "_score", Desc: true}}
 				}
 				keyOf := func(m match) []int {
 					d := docs[m.id]
@@ -254,7 +269,7 @@ func main() {
 					return map[string]any{"ev": ev, "hits": hits, "order": order, "keys": ks}
 				}
 				// full ranking with real sort values (for after/before keys)
-				full, ferr := run(rd, bluge.NewTopNSearch(len(base)+5, mk()).SortByCustom(realOrder(ks)))
+				full, ferr := run(rd, mkReq(len(base)+5, mk(), ks, def))
 				e := common("topn")
 				e["n"], e["from"], e["res"], e["err"] = len(base)+5, 0, ids(full), errS(ferr)
 				_ = enc.Encode(e)
@@ -269,7 +284,7 @@ func main() {
 						n = []int{1001, 1500, 120, 300, 999}[r.Intn(5)]
 						from = []int{0, 1, 950, 1000, 1040}[r.Intn(5)]
 					}
-					res, err := run(rd, bluge.NewTopNSearch(n, mk()).SetFrom(from).SortByCustom(realOrder(ks)))
+					res, err := run(rd, mkReq(n, mk(), ks, def).SetFrom(from))
 					e := common("topn")
 					e["n"], e["from"], e["res"], e["err"] = n, from, ids(res), errS(err)
 					_ = enc.Encode(e)
@@ -285,11 +300,11 @@ func main() {
 				for k := 0; k < 3; k++ {
 					piv := full[r.Intn(len(full))]
 					n := []int{0, 1, 2, 3, 9, 10, 11, 30}[r.Intn(8)]
-					res, err := run(rd, bluge.NewTopNSearch(n, mk()).SortByCustom(realOrder(ks)).After(piv.sv))
+					res, err := run(rd, mkReq(n, mk(), ks, def).After(piv.sv))
 					e := common("after")
 					e["n"], e["key"], e["res"], e["err"] = n, keyOf(piv), ids(res), errS(err)
 					_ = enc.Encode(e)
-					res, err = run(rd, bluge.NewTopNSearch(n, mk()).SortByCustom(realOrder(ks)).Before(piv.sv))
+					res, err = run(rd, mkReq(n, mk(), ks, def).Before(piv.sv))
 					e = common("before")
 					e["n"], e["key"], e["res"], e["err"] = n, keyOf(piv), ids(res), errS(err)
 					_ = enc.Encode(e)
@@ -301,7 +316,7 @@ func main() {
 				var cerr error
 				var after [][]byte
 				for guard := 0; guard < 100; guard++ {
-					req := bluge.NewTopNSearch(p, mk()).SortByCustom(realOrder(ks))
+					req := mkReq(p, mk(), ks, def)
 					if after != nil {
 						req.After(after)
 					}
@@ -326,7 +341,7 @@ func main() {
 				pages = [][]int{}
 				before := full[len(full)-1].sv
 				for guard := 0; guard < 100; guard++ {
-					res, err := run(rd, bluge.NewTopNSearch(p, mk()).SortByCustom(realOrder(ks)).Before(before))
+					res, err := run(rd, mkReq(p, mk(), ks, def).Before(before))
 					if err != nil {
 						cerr = err
 						break
